@@ -41,10 +41,15 @@ class TSeq(T):
     def empty(self): return Sym(self, Empty(self.sort()))
 
 _dt_cache = {}
+_dt_sig = {}
 class TRec(T):
     """record / object / tuple / map: a z3 datatype with one constructor"""
     def __init__(self, name, fields):
         self.name = name; self.fields = list(fields)          # [(fname, T)]
+        sig = tuple((f, t.name) for f, t in self.fields)
+        if name in _dt_sig and _dt_sig[name] != sig:
+            raise TypeError(f'record type {name!r} declared twice with different fields in one process: {_dt_sig[name]} / {sig}')
+        _dt_sig[name] = sig
         if name not in _dt_cache:
             d = Datatype(name.replace('[', '_').replace(']', '_').replace(',', '_').replace(' ', ''))
             d.declare('mk', *[(f, t.sort()) for f, t in self.fields])
